@@ -134,6 +134,8 @@ func C08(c *Ctx) {
 		}
 	}
 
+	const r6 = "K2.gc-liveness-guard"
+	gcLivenessGroup(c, r6)
 	const r5 = "K3.gc-writes-through-pipeline"
 	c.Rule(r5, "from RunValueLogGC the LSM write entry points are reached only through DB.batchSet → sendToWriteCh → commit worker; rewrite calls no LSM/memtable/WAL mutator directly")
 	if fn := c.Fn("", "valueLog.rewrite"); fn != nil {
@@ -256,6 +258,8 @@ func C10(c *Ctx) {
 		}
 	}
 
+	const r5 = "K11.flush-order"
+	flushOrderGroup(c, r5)
 	const r4 = "K2.orphan-vlog-removal-guard"
 	c.Rule(r4, "valueLog.reconcileManifest removes a segment only when the manifest marks it invalid (false edge of meta.Valid) or when its fid is above the highest manifest-valid fid (false edge of fid <= threshold) and at least one valid file exists")
 	if fn := c.Fn("", "valueLog.reconcileManifest"); fn != nil {
@@ -423,20 +427,9 @@ func C11(c *Ctx) {
 	}
 
 	const r2 = "K2.gc-liveness-guard"
-	c.Rule(r2, "valueLog.rewrite re-inserts a scanned record only when the LSM's current pointer for that key is in the same bucket and is not newer than the scanned position (fid, offset); the re-inserted entry's Key, Value and ExpiresAt are copied from the scanned record; records whose LSM entry is deleted/expired/inline are discarded (kv.DiscardEntry)")
-	if fn := c.Fn("", "valueLog.rewrite"); fn != nil {
-		var proc *ssa.Function
-		for _, a := range fn.AnonFuncs {
-			if len(Calls(a, false, Named("kv.DiscardEntry"))) > 0 {
-				proc = a
-			}
-		}
-		if proc == nil {
-			c.Fail(r2, key(fn, "has:process-closure"), fn.Pos(), 1, "no re-insert closure calling kv.DiscardEntry found in rewrite")
-		} else {
-			gcLiveness(c, r2, proc)
-		}
-	}
+	gcLivenessGroup(c, r2)
+	const r4 = "K1.compaction-keeps-every-entry"
+	compactionKeepsAllGroup(c, r4)
 	const r3 = "K3.lsm-set-callers"
 	c.Rule(r3, "LSM.Set (single-entry write path) has no caller in non-test module code other than none; memTable.setBatch is called only from LSM.SetBatch / memTable.Set")
 	if f := c.Fn("lsm", "LSM.Set"); f != nil {
